@@ -649,3 +649,144 @@ def _(tier, seed):
                 if len(failures) >= 3:
                     return dict(evaluations=evals, distinct=len(pws), failures=failures)
     return dict(evaluations=evals, distinct=len(pws), failures=failures)
+
+
+# -- helper layer of the handlers: parameters, the order of initialisation, Algorithm 6, the revision-5/6 hash dispatch, handler selection by /V ------------
+PDFEncryptionError = pd.PDFEncryptionError
+
+
+class _EncParam(T.Sort):
+    """an encryption dictionary with symbolic numbers; /V and /Length may be absent"""
+    def fresh(self, ctx, name):
+        shape = ctx.choose(["all", "no-V", "no-Length"], "param-shape")
+        R, P, V, Ln = ctx.fresh_int("R"), ctx.fresh_int("P"), ctx.fresh_int("V"), ctx.fresh_int("Length")
+        ctx.assume(z3.And(P >= -2 ** 31, P < 2 ** 31))
+        d = {"Filter": "Standard", "R": R, "P": P, "O": b"O" * 32, "U": b"U" * 32}
+        if shape != "no-V":
+            d["V"] = V
+        if shape != "no-Length":
+            d["Length"] = Ln
+        return SObj(None, {"d": d, "_shape": shape, "_R": R, "_P": P, "_V": V, "_L": Ln}, name)
+    def sample(self, rng):
+        return None
+    def from_model(self, ev, v):
+        return {"shape": v.f["_shape"], "R": int(str(ev(v.f["_R"]))), "P": int(str(ev(v.f["_P"])))}
+
+
+c = contract("pdfminer.pdfdocument:PDFStandardSecurityHandler.init_params", props=["C10"])
+c.param("self", T.Obj("pdfminer.pdfdocument:PDFStandardSecurityHandler")).ghost("ep", _EncParam())
+c.skip_cross = True
+c.inline = True
+c.wire = lambda bound, ghosts: bound["self"].f.__setitem__("param", ghosts["ep"].f["d"])
+c.mod("self.*")
+c.ens("R-O-U-as-stored", lambda self, ep: And(eq(self.r, ep._R), self.o == b"O" * 32, self.u == b"U" * 32))
+c.ens("P-as-unsigned-32-bit", lambda self, ep: And(le(0, self.p), le(self.p, 2 ** 32), eq(mod(self.p - ep._P, 2 ** 32), 0)))
+c.ens("defaults-V-0-Length-40", lambda self, ep: And(
+    (self.v == 0) if ep._shape == "no-V" else eq(self.v, ep._V), (self.length == 40) if ep._shape == "no-Length" else eq(self.length, ep._L)))
+
+
+def _set_r(I, bound):
+    bound["self"].f["r"] = bound["self"].f["_r_from_params"]
+
+
+_ip = stub("pdfminer.pdfdocument:PDFStandardSecurityHandler.init_params", ["self"]); _ip.effect = _set_r
+_ik = stub("pdfminer.pdfdocument:PDFStandardSecurityHandler.init_key", ["self"])
+for _cls, _revs in (("PDFStandardSecurityHandler", (2, 3)), ("PDFStandardSecurityHandlerV4", (4,)), ("PDFStandardSecurityHandlerV5", (5, 6))):
+    c = contract("pdfminer.pdfdocument:PDFStandardSecurityHandler.init#%s" % _cls, props=["C10"])
+    c.param("self", T.Obj("pdfminer.pdfdocument:" + _cls, _r_from_params=T.Int(0, 8), param=T.Const("param")))
+    c.skip_cross = True
+    c.mod("self.r")
+    c.stubs = {"pdfminer.pdfdocument:%s.init_params" % k: _ip for k in ("PDFStandardSecurityHandler", "PDFStandardSecurityHandlerV4", "PDFStandardSecurityHandlerV5")}
+    c.stubs.update({"pdfminer.pdfdocument:PDFStandardSecurityHandler.init_key": _ik})
+    c.may_raise(PDFEncryptionError, (lambda revs: lambda self: Not(Or(*[eq(self._r_from_params, r_) for r_ in revs])))(_revs))
+    c.ens("parameters-then-revision-check-then-key", lambda trace: [t[0].split(".")[-1] for t in trace] == ["init_params", "init_key"])
+
+
+# Algorithm 6: the candidate key is the one computed from the password; it is returned exactly when it reproduces /U
+_cek = stub("pdfminer.pdfdocument:PDFStandardSecurityHandler.compute_encryption_key", ["self", "password"], T.Opaque("candidate-key"))
+_vek = stub("pdfminer.pdfdocument:PDFStandardSecurityHandler.verify_encryption_key", ["self", "key"], T.Bool())
+c = contract("pdfminer.pdfdocument:PDFStandardSecurityHandler.authenticate_user_password", props=["C10"])
+c.param("self", T.Obj("pdfminer.pdfdocument:PDFStandardSecurityHandler")).param("password", T.Const(b"pw"))
+c.skip_cross = True
+c.stubs = {"pdfminer.pdfdocument:PDFStandardSecurityHandler.compute_encryption_key": _cek, "pdfminer.pdfdocument:PDFStandardSecurityHandler.verify_encryption_key": _vek}
+c.returns(T.Opaque("key"))
+c.ens("key-from-this-password-returned-iff-it-verifies", lambda password, result, trace: (
+    len(trace) == 2 and trace[0][0].endswith("compute_encryption_key") and trace[0][1]["password"] == password
+    and trace[1][0].endswith("verify_encryption_key") and trace[1][1]["key"] is trace[0][1]["__result__"]
+    and If(trace[1][1]["__result__"], result is trace[0][1]["__result__"], result is None)))
+
+
+# revisions 5 and 6: which hash, over what
+_r5 = stub("pdfminer.pdfdocument:PDFStandardSecurityHandlerV5._r5_password", ["self", "password", "salt", "vector"], T.Const("r5-hash"))
+_r6 = stub("pdfminer.pdfdocument:PDFStandardSecurityHandlerV5._r6_password", ["self", "password", "salt", "vector"], T.Const("r6-hash"))
+c = contract("pdfminer.pdfdocument:PDFStandardSecurityHandlerV5._password_hash", props=["C10"])
+c.param("self", T.Obj("pdfminer.pdfdocument:PDFStandardSecurityHandlerV5", r=T.OneOf(5, 6))).param("password", FixedBytes(6)).param("salt", FixedBytes(8))
+c.param("vector", T.OneOf(None, b"U" * 48))
+c.skip_cross = True
+c.stubs = {"pdfminer.pdfdocument:PDFStandardSecurityHandlerV5._r5_password": _r5, "pdfminer.pdfdocument:PDFStandardSecurityHandlerV5._r6_password": _r6}
+c.ens("revision-5-plain-SHA-256-revision-6-the-iterated-hash-same-arguments", lambda self, password, salt, vector, result, trace: (
+    len(trace) == 1 and trace[0][0].endswith("_r5_password" if self.r == 5 else "_r6_password") and result == ("r5-hash" if self.r == 5 else "r6-hash")
+    and trace[0][1]["password"] is password and trace[0][1]["vector"] is vector and beq(trace[0][1]["salt"], salt)))
+
+c = contract("pdfminer.pdfdocument:PDFStandardSecurityHandlerV5._r5_password", props=["C10"])
+c.param("self", T.Obj("pdfminer.pdfdocument:PDFStandardSecurityHandlerV5")).param("password", FixedBytes(6)).param("salt", FixedBytes(8))
+c.param("vector", T.OneOf(None, b"U" * 48))
+c.skip_cross = True
+c.ens("SHA-256-of-password-salt-and-the-U-string-when-given", lambda password, salt, vector, result: beq(
+    result, BT.fn("sha256", [BT.cat(BT.cat(BT.of(password), salt), vector) if vector is not None else BT.cat(BT.of(password), salt)], n=32)))
+
+
+# handler selection: /Filter must be Standard; /V picks the class (1, 2 -> RC4 handler, 4 -> crypt filters, 5 -> AES-256); the document takes the
+# handler's decrypt and its three permission answers, and stream lengths are taken literally from then on
+class _DocEnc(T.Sort):
+    def fresh(self, ctx, name):
+        filt = ctx.choose(["Standard", "Other", None], "Filter")
+        v = ctx.choose([None, 0, 1, 2, 3, 4, 5, 6], "V")
+        param = {}
+        if filt is not None:
+            param["Filter"] = pd.LIT(filt) if hasattr(pd, "LIT") else real_module("pdfminer.psparser").LIT(filt)
+        if v is not None:
+            param["V"] = v
+        made = []
+
+        def factory(kind):
+            def make(I, docid, prm, password):
+                flags = tuple(ctx.fresh_bool("%s_flag%d" % (kind, i)) for i in range(3))
+                h = SObj(None, {"decrypt": "decrypt-of-" + kind, "is_printable": SymFn(lambda I2: flags[0], "is_printable"),
+                                "is_modifiable": SymFn(lambda I2: flags[1], "is_modifiable"), "is_extractable": SymFn(lambda I2: flags[2], "is_extractable")}, "handler")
+                made.append((kind, docid, prm, password, flags))
+                return h
+            return SymFn(make, kind)
+        reg = {1: factory("rc4"), 2: factory("rc4"), 4: factory("v4"), 5: factory("v5")}
+        parser = SObj(None, {"fallback": True}, "parser")
+        return SObj(pd.PDFDocument, {"encryption": ("docid", param), "security_handler_registry": reg, "_parser": parser, "_filt": filt, "_v": v, "_made": made}, name)
+    def sample(self, rng):
+        return None
+    def from_model(self, ev, v):
+        return {"Filter": v.f["_filt"], "V": v.f["_v"]}
+
+
+c = contract("pdfminer.pdfdocument:PDFDocument._initialize_password", props=["C10"])
+c.param("self", _DocEnc()).param("password", T.Const("pw"))
+c.skip_cross = True
+c.mod("self.decipher").mod("self.is_printable").mod("self.is_modifiable").mod("self.is_extractable").mod("self._parser.fallback").mod("self._made")
+c.may_raise(PDFEncryptionError, lambda self: self._filt != "Standard" or self._v not in (1, 2, 4, 5))
+c.ens("handler-class-by-V-built-once-from-id-dictionary-and-password-its-answers-stored", lambda self, password: (
+    len(self._made) == 1 and self._made[0][0] == {1: "rc4", 2: "rc4", 4: "v4", 5: "v5"}[self._v] and self._made[0][1] == "docid"
+    and self._made[0][2] is self.encryption[1] and self._made[0][3] == password and self.decipher == "decrypt-of-" + self._made[0][0]
+    and self._parser.fallback is False
+    and And(Iff(self.is_printable, self._made[0][4][0]), Iff(self.is_modifiable, self._made[0][4][1]), Iff(self.is_extractable, self._made[0][4][2]))))
+
+
+@exhaustive("handler-registry-and-supported-revisions", props=["C10"],
+            note="the real class table: /V 1 and 2 -> PDFStandardSecurityHandler (revisions 2, 3), /V 4 -> ...V4 (revision 4), /V 5 -> ...V5 (revisions 5, 6); nothing else")
+def _():
+    reg = pd.PDFDocument.security_handler_registry
+    want = {1: (pd.PDFStandardSecurityHandler, (2, 3)), 2: (pd.PDFStandardSecurityHandler, (2, 3)), 4: (pd.PDFStandardSecurityHandlerV4, (4,)),
+            5: (pd.PDFStandardSecurityHandlerV5, (5, 6))}
+    fails = []
+    for v in sorted(set(reg) | set(want)):
+        got = reg.get(v)
+        if v not in want or got is not want[v][0] or tuple(got.supported_revisions) != want[v][1]:
+            fails.append(dict(V=v, got=getattr(got, "__name__", None), revisions=list(getattr(got, "supported_revisions", ())), want=want.get(v, (None,))[0].__name__ if v in want else None))
+    return dict(cases=len(set(reg) | set(want)), failures=fails)
